@@ -2151,6 +2151,23 @@ floor_divide = _make_ufunc2("floor_divide")
 power = _make_ufunc2("power")
 
 
+def percentile(a, q, axis=None, out=None, overwrite_input=False, **kw):
+    """np.percentile: uninterpreted (relative to NumPy); one result per requested percentile, stacked along a new first axis
+    when q is a sequence"""
+    if out is not None or overwrite_input or kw:
+        raise OutOfSubset("np.percentile(out= / overwrite_input= / method= ...)")
+    if isinstance(q, (list, tuple)):
+        qs = tuple(float(x) for x in q)
+        if not builtins.all(conc(x) is not None or isinstance(x, float) for x in q):
+            raise OutOfSubset("np.percentile with symbolic percentiles")
+        return _along_axis("percentile", a, axis, {"q": qs}, lambda shape, ax: (len(qs),) + _drop(shape, ax))
+    if isinstance(q, ndarray):
+        raise OutOfSubset("np.percentile with an array of percentiles")
+    if not isinstance(q, (int, float)):
+        raise OutOfSubset("np.percentile with a symbolic percentile")
+    return _along_axis("percentile", a, axis, {"q": float(q)}, _drop)
+
+
 def invert(a):
     """np.invert: logical not on boolean arrays (bitwise inversion of integers is outside the subset)"""
     a = asarray(a)
@@ -2498,7 +2515,7 @@ def _result_elem(name, a):
         return "b", "bool"
     if base in ("argmin", "argmax"):
         return "i", "int"
-    if base in ("mean", "var", "std", "median"):
+    if base in ("mean", "var", "std", "median", "percentile"):
         return "f", "real"
     if a.elem == "int":
         return "i", "int"
@@ -2513,7 +2530,7 @@ def _along_axis(name, a, axis, kw, shape_rule):
         raise TypeError("cannot perform %s on this dtype" % name)
     kw = {k: v for k, v in kw.items() if v is not None and k not in ("out",)}
     for k, v in kw.items():
-        if not isinstance(v, (int, float, bool, str)):
+        if not isinstance(v, (int, float, bool, str)) and not (isinstance(v, tuple) and builtins.all(isinstance(x, (int, float)) for x in v)):
             raise OutOfSubset("np.%s(%s=%r)" % (name, k, v))
     c = ctx()
     c.lib("np.%s (uninterpreted, relative to NumPy)" % name)
